@@ -144,11 +144,12 @@ def carg? (ps : List (Nat × Val)) (t : String) : Option CArg :=
 
 def cargs? (ps : List (Nat × Val)) (t : String) : Option (List CArg) := (splitList t).mapM (carg? ps)
 
-/-- comparefn `function(x,y){return x-y}`: otto's toIntSign of the difference (±Infinity and NaN count as 0) -/
+/-- comparefn `function(x,y){return x-y}`: otto's toIntSign of the difference (NaN counts as 0) -/
 def numCmpModel (x y : Val) : Int :=
   match sub (toFloat env x) (toFloat env y) with
   | .fin s m _ => if m = 0 then 0 else if s then -1 else 1
-  | _ => 0
+  | .inf s => if s then -1 else 1
+  | .nan => 0
 /-- the sign ES5 sees -/
 def numCmpSpec (x y : Val) : Int :=
   match sub (Spec.toNumber env x) (Spec.toNumber env y) with
@@ -191,7 +192,7 @@ def modelMethod (ps : List (Nat × Val)) (name : String) (argTok : String) : Opt
     | "reduceRight" => some (reduceRight O callable args)
     | "sort" => some (sort O env true none)
     | "sortNum" => some (sort O env true (some numCmpModel))
-    | "sortInf" => some (sort O env true (some fun _ _ => 0))      -- toIntSign(±Infinity) = 0
+    | "sortInf" => some (sort O env true (some infCmpSpec))        -- toIntSign(±Infinity) = ±1
     | _ => none
 
 def specMethod (ps : List (Nat × Val)) (name : String) (argTok : String) : Option (M St Ret) :=
@@ -302,62 +303,16 @@ def addDev (acc : List String) (d : String) : List String := if acc.contains d t
 /-- regions of one step, evaluated on the object the *model* has reached before the step -/
 def stepDev (o : Obj) (t : String) : List String :=
   match t.splitOn "/" with
-  | ["put", k, _] =>
-    match key? k with
-    | some (.name s) => if o.isArr ∧ stringToArrayIndexRaw s ≥ 0 then ["index_noncanonical"] else []
-    | _ => []
-  | ["def", k, v, _, _, _] =>
-    match key? k with
-    | some (.name s) => if o.isArr ∧ stringToArrayIndexRaw s ≥ 0 then ["index_noncanonical"] else []
-    | some .length =>
-      match val? v with
-      | some v => if o.isArr ∧ arrayUint32 env v = some (arrLength o) ∧ lengthWritable o = false
-                  then ["length_same_value_not_writable"] else []
-      | none => []
-    | _ => []
-  | ["frz"] | ["seal"] =>
-    if o.isArr ∧ o.props.any (fun (k, _) => match k with | .name s => stringToArrayIndexRaw s ≥ 0 | _ => false)
-    then ["index_noncanonical"] else []
-  | ["call", m, argTok, _] =>
+  | ["call", "splice", argTok, _] =>
     let O := modelOps env
     let s : St := { o := o }
     let len := O.len s
-    let holeIn (a n : Nat) : Bool := (List.range n).any (fun j => !O.has s (a + j))
-    let present (_ : Unit) : Nat := ((List.range len).filter (O.has s)).length
-    match m, vals? argTok with
-    | "slice", some args =>
-      let (a, b) := rangeStartEnd env args len
-      if holeIn a.toNat (b - a).toNat then ["hole_to_undefined"] else []
-    | "splice", some args =>
+    match vals? argTok with
+    | some args =>
       let start := (valueToRangeIndex env (argAt args 0) len false).toNat
-      let dc : Nat := if args.length > 1 then (valueToRangeIndex env (argAt args 1) ((len : Int) - start) true).toNat else len - start
-      (if args.length = 0 ∧ len > 0 then ["splice_no_arguments"] else [])
-        ++ (if args.length = 1 ∧ len - start > 0 then ["splice_one_argument"] else [])
-        ++ (if args.length > 1 ∧ holeIn start dc then ["hole_to_undefined"] else [])
-    | "map", some _ => if holeIn 0 len then ["hole_to_undefined"] else []
-    | "reverse", some _ =>
-      let fragile : Bool := !o.ext || o.props.any (fun (k, p) => match k with | .idx _ => !p.c | _ => false)
-      if fragile ∧ (List.range (len / 2)).any (fun lo => !O.has s lo && O.has s (len - lo - 1)) then ["reverse_delete_before_put"] else []
-    | "lastIndexOf", some args =>
-      let i := toI64 env (argAt args 1)
-      let i := if i < 0 then i + len else i
-      if args.length > 1 ∧ i = len ∧ O.has s len then ["lastIndexOf_from_length"] else []
-    | "reduce", some args => if args.length = 0 ∧ len > 0 ∧ present () = 0 then ["reduce_no_element"] else []
-    | "reduceRight", some args =>
-      (if args.length = 0 ∧ len > 0 ∧ present () = 0 then ["reduce_no_element"] else [])
-        ++ (if present () ≥ (if args.length = 0 then 2 else 1) then ["reduceRight_index_string"] else [])
-    | "sortInf", some _ =>
-      -- the comparefn returns ±Infinity for some pair: two present defined values that are not numerically equal
-      let vals := (List.range len).filterMap fun k =>
-        if O.has s k ∧ O.get s k ≠ .undef then some (O.get s k) else none
-      if vals.any (fun x => vals.any (fun y => infCmpSpec x y != 0)) then ["sort_comparator_infinite"] else []
-    | "concat", _ =>
-      match cargs? o.proto argTok with
-      | some items =>
-        if holeIn 0 len ∨ items.any (fun it => match it with | .arr es => es.any Option.isNone | _ => false)
-        then ["hole_to_undefined"] else []
-      | none => []
-    | _, _ => []
+      -- ES5.1 letter: a missing deleteCount is ToInteger(undefined) = 0; otto (and ES2015) remove up to the end
+      if args.length = 1 ∧ len - start > 0 then ["splice_one_argument"] else []
+    | none => []
   | _ => []
 
 def histDev (o : Obj) (steps : List String) : List String :=
@@ -383,7 +338,7 @@ def handle (ws : List String) : String :=
       | some b =>
         let m := stringToArrayIndexRaw b
         let s : Int := match Spec.arrayIndex? b with | some n => n | none => -1
-        reply (toString m) (toString s) (if m ≥ 0 ∧ (Spec.arrayIndex? b).isNone then "index_noncanonical" else "-")
+        reply (toString m) (toString s) "-"
       | none => "bad-op"
     | _ => "bad-op"
   | ["range", v, len, nz] =>
